@@ -134,6 +134,48 @@ def precedence_programs():
     return out
 
 
+def rope_programs():
+    """strings have two internal representations (flat, and a tree of pieces for concatenations of >= 100 bytes).
+    The same texts - equal, differing in one character, one a prefix of the other, ASCII and not - are written as
+    literals and as concatenations associated differently; every comparison, concatenation, index, slice, key lookup
+    and length must depend on the text only."""
+    P, Q, U = "x" * 60, "y" * 60, "\u00e9" * 30
+    cat = lambda a, b: ("bin", "+", a, b)
+    kinds = {}
+    for m in ("a", "b"):
+        kinds["flat_" + m] = S(P + m + Q)
+        kinds["left_" + m] = cat(cat(S(P), S(m)), S(Q))
+        kinds["right_" + m] = cat(S(P), cat(S(m), S(Q)))
+        kinds["deepflat_" + m] = S(P + Q + m + Q + P)
+        kinds["deepl_" + m] = cat(cat(cat(S(P), S(Q)), cat(S(m), S(Q))), S(P))
+        kinds["deepr_" + m] = cat(S(P), cat(S(Q), cat(cat(S(m), S(Q)), S(P))))
+        kinds["uflat_" + m] = S(U + m + Q)
+        kinds["uleft_" + m] = cat(cat(S(U), S(m)), S(Q))
+        kinds["uright_" + m] = cat(S(U[:11]), cat(S(U[11:] + m), S(Q)))
+    kinds["prefix_flat"] = S(P + "a" + Q[:59])
+    kinds["prefix_rope"] = cat(S(P[:50]), cat(S(P[50:] + "a"), S(Q[:59])))
+    kinds["longer_rope"] = cat(cat(S(P), S("a" + Q)), S("!"))
+    out = []
+    for (ka, a), (kb, b) in itertools.product(kinds.items(), repeat=2):
+        if ka[:4] == kb[:4] or "flat" in ka or "flat" in kb or "prefix" in ka + kb or "longer" in ka + kb or ka[0] == kb[0]:
+            body = ("arr", [("bin", op, V("a"), V("b")) for op in ("==", "!=", "<", "<=", ">", ">=")]
+                    + [("bin", "<", ("arr", [N(1), V("a")]), ("arr", [N(1), V("b")])),
+                       ("bin", "==", ("arr", [V("a"), V("b")]), ("arr", [V("b"), V("a")])),
+                       ("bin", "in", V("a"), ("obj", [("field", ("dyn", V("b")), False, ":", None, N(1))])),
+                       ("bin", "==", ("bin", "+", V("a"), V("b")), ("bin", "+", V("b"), V("a"))),
+                       ("apply", ("index", V("std"), S("length"), "dot"), [("bin", "+", V("a"), V("b"))], [], False)])
+            out.append(("rope:%s:%s" % (ka, kb), ("local", [("bind", "a", a), ("bind", "b", b)], body)))
+    for k, a in kinds.items():
+        probes = [("apply", ("index", V("std"), S("length"), "dot"), [V("a")], [], False),
+                  ("index", V("a"), N(60)), ("index", V("a"), N(0)), ("index", V("a"), N(120)), ("index", V("a"), N(400)),
+                  ("slice", V("a"), N(58), N(63), None), ("slice", V("a"), None, None, N(40)), ("slice", V("a"), N(119), None, None),
+                  ("index", ("obj", [("field", ("dyn", V("a")), False, ":", None, N(7))]), a),
+                  ("bin", "==", V("a"), a)]
+        for pi, pr in enumerate(probes):
+            out.append(("rope1:%s:%d" % (k, pi), ("local", [("bind", "a", a)], pr)))
+    return out
+
+
 # ----------------------------------------------------------------- running
 def reference(ast, ext=None):
     it = interp.Interp(ext=ext)
@@ -200,7 +242,7 @@ def shard(idx, n, tier, seed, binary):
     workers = {"default": wd, "legacy": wl}
     try:
         # (i) systematic tables, exhaustive and seed independent
-        table = systematic() + precedence_programs()
+        table = systematic() + precedence_programs() + rope_programs()
         for label, ast in runner.chunks(table, idx, n):
             ref = reference(ast)
             is_prec = label.startswith("prec:")
